@@ -12,6 +12,9 @@ Definition w_last (ops : list cop) : option (option value * bool) := last_result
 Definition w_clean (ops : list cop) (k : key) : option value := clean_value mixF w_fuel (w_run ops) k.
 Definition r_input : rule := mkRule 0 true [] [] [] None [].
 
+(* split conjunctions only (never an equation: `split` on an equation would unify by lazy conversion) *)
+Ltac conjs := repeat match goal with |- _ /\ _ => split end.
+
 (* ---------- scenario 1: same engine, no flags (the engine before the fix) ---------- *)
 
 (* R = f(A, B) with A = 2, B = 4.  Build; B changes; the next build is cancelled after 14 events: B has been rebuilt
@@ -30,7 +33,7 @@ Theorem same_engine_v0_refuted :
   w_last (s1_prefix ++ [CBuildCancelV0 1 14]) = Some (None, true) /\
   w_last s1_history_v0 = Some (Some (891684, 0), false) /\
   w_clean s1_history_v0 1 = Some (888378, 0).
-Proof. repeat split; vm_compute; reflexivity. Qed.
+Proof. conjs; vm_compute; reflexivity. Qed.
 
 (* with the flag the same history is repaired: R runs with reason Forced *)
 Theorem same_engine_flagged_ok :
@@ -39,7 +42,7 @@ Theorem same_engine_flagged_ok :
   w_last s1_history = Some (Some (888378, 0), false) /\
   w_clean s1_history 1 = Some (888378, 0) /\
   In (ENeed 1 Forced None) (firstn 12 (st_log (h_st (w_run s1_history)))).
-Proof. repeat split; vm_compute; try reflexivity. repeat (first [left; reflexivity | right]). Qed.
+Proof. conjs; vm_compute; try reflexivity. repeat (first [left; reflexivity | right]). Qed.
 
 (* ---------- scenario 2: the discovered-dependency window (flags present) ---------- *)
 
@@ -62,7 +65,7 @@ Theorem discovered_window_refuted :
   w_clean s2_same_engine 1 = Some (464033, 0) /\
   w_last s2_new_engine = Some (Some (462296, 0), false) /\
   w_clean s2_new_engine 1 = Some (464033, 0).
-Proof. repeat split; vm_compute; reflexivity. Qed.
+Proof. conjs; vm_compute; reflexivity. Qed.
 
 (* the excluding hypothesis fails in this witness: at the abort, R has completed and its discovered input 5 is not
    complete in the epoch *)
@@ -72,17 +75,26 @@ Definition s2_env : key -> N := env_of (h_env (w_run s2_prefix)).
 Definition s2_abort : state :=
   state_of (ensure_c s2_rules s2_env mixF ord_id 15 (length (st_log s2_before)) w_fuel [] (bump_epoch s2_before) 1).
 
+(* (computed facts are asserted as goals: `vm_compute in H` would be re-checked by lazy conversion at Qed) *)
+Lemma s2_abort_facts :
+  In (EComplete 1 (462296, 0)) (build_log s2_abort (length (st_log s2_before))) /\
+  In 5 (r_disc (s2_rules 1)) /\
+  res_builtAt (get (st_mem s2_abort) 5) = 1 /\ st_epoch s2_abort = 2.
+Proof. conjs; vm_compute; try reflexivity; now left. Qed.
+
 Theorem discovered_window_pending :
   ensure_c s2_rules s2_env mixF ord_id 15 (length (st_log s2_before)) w_fuel [] (bump_epoch s2_before) 1 = Cycle s2_abort [] /\
   ~ no_pending_discovered s2_rules s2_abort (length (st_log s2_before)).
 Proof.
   split; [vm_compute; reflexivity|]. intros H.
-  assert (Hin : In (EComplete 1 (462296, 0)) (build_log s2_abort (length (st_log s2_before)))).
-  { vm_compute. now left. }
-  specialize (H 1 (462296, 0) Hin 5). vm_compute in H. assert (C : 1 = 2) by (apply H; now left). discriminate C.
+  destruct s2_abort_facts as [Hin [Hd [E1 E2]]].
+  specialize (H 1 (462296, 0) Hin 5 Hd). rewrite E1, E2 in H. discriminate H.
 Qed.
 
 (* ---------- existential forms ---------- *)
+
+Lemma s1_clean : w_clean (s1_prefix ++ [CBuildCancelV0 1 14; CPlain (OBuild 1)]) 1 = Some (888378, 0).
+Proof. vm_compute; reflexivity. Qed.
 
 Theorem same_engine_v0_refuted_ex :
   exists (ops : list cop) (k : key) (n : nat) (v : value),
@@ -92,8 +104,14 @@ Theorem same_engine_v0_refuted_ex :
 Proof.
   exists s1_prefix, 1, 14%nat, (891684, 0).
   split; [vm_compute; reflexivity|]. split; [vm_compute; reflexivity|].
-  intros H. vm_compute in H. discriminate H.
+  rewrite s1_clean. intros H. discriminate H.
 Qed.
+
+Lemma s2_clean_same : w_clean (s2_prefix ++ [CBuildCancel 1 15; CPlain (OSet 5 7); CPlain (OBuild 1)]) 1 = Some (464033, 0).
+Proof. vm_compute; reflexivity. Qed.
+Lemma s2_clean_new :
+  w_clean (s2_prefix ++ [CBuildCancel 1 15; CPlain (OSet 5 7); CPlain (ORestart true); CPlain (OBuild 1)]) 1 = Some (464033, 0).
+Proof. vm_compute; reflexivity. Qed.
 
 Theorem discovered_window_refuted_ex :
   exists (ops : list cop) (k d : key) (n : nat) (x : N) (v : value),
@@ -105,8 +123,8 @@ Theorem discovered_window_refuted_ex :
 Proof.
   exists s2_prefix, 1, 5, 15%nat, 7, (462296, 0).
   split; [vm_compute; reflexivity|]. split; [vm_compute; reflexivity|].
-  split; [intros H; vm_compute in H; discriminate H|]. split; [vm_compute; reflexivity|].
-  intros H. vm_compute in H. discriminate H.
+  split; [rewrite s2_clean_same; intros H; discriminate H|]. split; [vm_compute; reflexivity|].
+  rewrite s2_clean_new. intros H. discriminate H.
 Qed.
 
 (* ---------- non-vacuity: the hypotheses of the positive theorems hold on scenario 1 ---------- *)
@@ -118,52 +136,67 @@ Definition s1_base : nat := length (st_log s1_before).
 Definition s1_out : outcome := build_cancel s1_rules s1_env mixF ord_id 14 w_fuel s1_before 1.
 Definition s1_after : state := state_of s1_out.
 Definition s1_log : list event := build_log s1_after s1_base.
+Definition s1_plain : outcome := build s1_rules s1_env mixF ord_id w_fuel s1_before 1.
 
-(* returns_failure: the build is really cut short (second disjunct), 14 <= 14 events *)
+(* returns_failure: the build is really cut short (second disjunct): stopped after exactly 14 of the 17 events *)
 Example ex_returns_failure :
-  s1_out = Cycle s1_after [] /\ s1_out <> build s1_rules s1_env mixF ord_id w_fuel s1_before 1 /\
-  events_since s1_base s1_after = 14%nat.
-Proof. split; [vm_compute; reflexivity|]. split; [intros H; vm_compute in H; discriminate H | vm_compute; reflexivity]. Qed.
+  s1_out = Cycle s1_after [] /\ s1_plain = Ok (state_of s1_plain) /\
+  events_since s1_base s1_after = 14%nat /\ events_of s1_base s1_plain = 17%nat.
+Proof. conjs; vm_compute; reflexivity. Qed.
 
-(* cancel_after_end: 18 events < 19 *)
+(* cancel_after_end: 17 events < 18 *)
 Example ex_cancel_after_end :
-  events_of s1_base (build s1_rules s1_env mixF ord_id w_fuel s1_before 1) = 18%nat /\
-  build_cancel s1_rules s1_env mixF ord_id 19 w_fuel s1_before 1 = build s1_rules s1_env mixF ord_id w_fuel s1_before 1.
-Proof. split; vm_compute; reflexivity. Qed.
+  s1_plain <> OutOfFuel /\ (events_of s1_base s1_plain < 18)%nat /\
+  build_cancel s1_rules s1_env mixF ord_id 18 w_fuel s1_before 1 = s1_plain.
+Proof.
+  destruct ex_returns_failure as [_ [E [_ Ev]]].
+  split; [rewrite E; intros H; discriminate H|]. split; [rewrite Ev; lia | vm_compute; reflexivity].
+Qed.
 
 (* persisted_only_completed / flags_exact: key 4 completed (its row changed), key 1 was in progress (row kept, flagged) *)
 Example ex_persisted_flags :
   has_state s1_out s1_after /\
-  get (st_db s1_after) 4 <> get (st_db s1_before) 4 /\ completed_in s1_log 4 = true /\
-  created_in s1_log 1 = true /\ completed_in s1_log 1 = false /\
+  res_value (get (st_db s1_before) 4) = Some (346902, 7) /\ res_value (get (st_db s1_after) 4) = Some (346903, 8) /\
+  completed_in s1_log 4 = true /\ created_in s1_log 1 = true /\ completed_in s1_log 1 = false /\
   get (st_db s1_after) 1 = get (st_db s1_before) 1 /\
   flagged s1_before 1 = false /\ flagged s1_after 1 = true /\ flagged s1_after 4 = false.
 Proof.
-  split; [right; exists []; vm_compute; reflexivity|].
-  split; [intros H; vm_compute in H; discriminate H|]. repeat split; vm_compute; reflexivity.
+  split; [right; exists []; vm_compute; reflexivity|]. conjs; vm_compute; reflexivity.
 Qed.
 
 (* flagged_reruns / forced_only_flagged: the next traversal on the same engine *)
 Definition s1_next : state := bump_epoch (emit s1_after (EBuildStart 1)).
+Definition s1_next_out : outcome := ensure s1_rules s1_env mixF ord_id w_fuel [] s1_next 1.
+Lemma s1_next_facts :
+  flagged s1_next 1 = true /\ res_builtAt (get (st_mem s1_next) 1) = 1 /\ st_epoch s1_next = 3 /\
+  s1_next_out = Ok (state_of s1_next_out) /\
+  flagged (state_of s1_next_out) 1 = false /\ result_of (state_of s1_next_out) 1 = Some (888378, 0).
+Proof. conjs; vm_compute; reflexivity. Qed.
+
 Example ex_flagged_reruns :
   flagged s1_next 1 = true /\ res_builtAt (get (st_mem s1_next) 1) <> st_epoch s1_next /\ ~ In 1 (@nil key) /\
-  exists s', ensure s1_rules s1_env mixF ord_id w_fuel [] s1_next 1 = Ok s' /\
-             flagged s' 1 = false /\ result_of s' 1 = Some (888378, 0).
+  has_state s1_next_out (state_of s1_next_out).
 Proof.
-  split; [vm_compute; reflexivity|]. split; [intros H; vm_compute in H; discriminate H|]. split; [intros []|].
-  exists (state_of (ensure s1_rules s1_env mixF ord_id w_fuel [] s1_next 1)).
-  repeat split; vm_compute; reflexivity.
+  destruct s1_next_facts as [Hf [Eb [Ee [Eo _]]]].
+  split; [exact Hf|]. split; [rewrite Eb, Ee; intros H; discriminate H|]. split; [intros []|]. left. exact Eo.
 Qed.
 
 (* unflagged_runs_only_for_input: in the uncancelled second build key 1 is unflagged, built, valid, and runs *)
-Definition s1_full : state := state_of (ensure s1_rules s1_env mixF ord_id w_fuel [] (bump_epoch s1_before) 1).
-Example ex_unflagged :
-  flagged (bump_epoch s1_before) 1 = false /\ res_builtAt (get (st_mem (bump_epoch s1_before)) 1) <> 0 /\
-  r_sig (s1_rules 1) = res_sig (get (st_mem (bump_epoch s1_before)) 1) /\
-  valid s1_rules s1_env 1 (get (st_mem (bump_epoch s1_before)) 1) = true /\
+Definition s1_start : state := bump_epoch s1_before.
+Definition s1_full : state := state_of (ensure s1_rules s1_env mixF ord_id w_fuel [] s1_start 1).
+Lemma s1_start_facts :
+  flagged s1_start 1 = false /\ res_builtAt (get (st_mem s1_start) 1) = 1 /\
+  r_sig (s1_rules 1) = res_sig (get (st_mem s1_start) 1) /\
+  valid s1_rules s1_env 1 (get (st_mem s1_start) 1) = true /\
   In (ECreate 1) (build_log s1_full s1_base) /\ In (ENeed 1 InputRebuilt (Some 4)) (build_log s1_full s1_base).
+Proof. conjs; vm_compute; try reflexivity; repeat (first [left; reflexivity | right]). Qed.
+
+Example ex_unflagged :
+  flagged s1_start 1 = false /\ res_builtAt (get (st_mem s1_start) 1) <> 0 /\
+  r_sig (s1_rules 1) = res_sig (get (st_mem s1_start) 1) /\
+  valid s1_rules s1_env 1 (get (st_mem s1_start) 1) = true /\
+  In (ECreate 1) (build_log s1_full s1_base).
 Proof.
-  split; [vm_compute; reflexivity|]. split; [intros H; vm_compute in H; discriminate H|].
-  split; [vm_compute; reflexivity|]. split; [vm_compute; reflexivity|].
-  split; vm_compute; repeat (first [left; reflexivity | right]).
+  destruct s1_start_facts as [Hf [Eb [Es [Ev [Hc _]]]]].
+  split; [exact Hf|]. split; [rewrite Eb; intros H; discriminate H|]. split; [exact Es|]. split; [exact Ev | exact Hc].
 Qed.
